@@ -97,9 +97,9 @@ int rstr_find(struct rstr *rs, char *s, int n, int *grps, int flg)
 		if ((((unsigned char) r[0]) & 0xc0) == 0x80 ||
 				(((unsigned char) r[len]) & 0xc0) == 0x80)
 			continue;	/* inside a multi-byte character */
-		if (rs->wbeg && ((r > s && isword(r - 1)) || !isword(r)))
+		if (rs->wbeg && ((r > s ? isword(r - 1) : !!(flg & RE_WORDBEF)) || !isword(r)))
 			continue;
-		if (rs->wend && (r + len == s || !isword(r + len - 1) ||
+		if (rs->wend && (!(r + len > s ? isword(r + len - 1) : !!(flg & RE_WORDBEF)) ||
 				(r[len] && isword(r + len))))
 			continue;
 		if (!match_case(r, rs->str, rs->icase)) {
